@@ -179,6 +179,21 @@ Theorem C10_scala_package_brace_fixed :
 Proof. exact Proofs.C10.scala_package_brace_fixed. Qed.
 Print Assumptions C10_scala_package_brace_fixed.
 
+(* C10-python-generic-alias (fixed in /repo): the former witness `type Al<T> = Vec<T>` is in no finding class and
+   gives exactly the file w_py_alias_text: `T = TypeVar("T")` declared (TypeVar imported), the alias the plain
+   assignment `Al = List[T]` - no subscript on the left-hand side -, lexically good.  (That CPython imports the real
+   file is what the check runs: checks/c10.py WITNESSES.) *)
+Theorem C10_python_generic_alias_fixed :
+  dom_C10 CPY (Proofs.C10.w_pd [] [] [Proofs.C10.w_alias]) = true /\
+  known_C10 CPY [] (Proofs.C10.w_pd [] [] [Proofs.C10.w_alias]) = [] /\
+  py_generate uc_exec Proofs.C10.w_py_cfg (Proofs.C10.w_pd [] [] [Proofs.C10.w_alias]) = Ok Proofs.C10.w_py_alias_text /\
+  contains_sub (lit "Al = List[T]") Proofs.C10.w_py_alias_text = true /\
+  contains_sub (lit "Al[T]") Proofs.C10.w_py_alias_text = false /\
+  contains_sub (lit "T = TypeVar(""T"")") Proofs.C10.w_py_alias_text = true /\
+  good_C10_lex CPY Proofs.C10.w_py_alias_text = true.
+Proof. exact Proofs.C10.python_generic_alias_fixed. Qed.
+Print Assumptions C10_python_generic_alias_fixed.
+
 (* ---------------------------------------------------------------- the finding classes are real *)
 Theorem C10_scala_default_refuted :
   exists cfg pd text, dom_C10 CSC pd = true /\ known_C10 CSC (sc_package cfg) pd = ["C10-scala-default"%string] /\
@@ -192,12 +207,6 @@ Theorem C10_swift_label_refuted :
     contains_sub (lit "public init(let: String)") text = true /\ good_C10_swift_labels [lit "let"] = false.
 Proof. exact Proofs.C10.swift_label_refuted. Qed.
 Print Assumptions C10_swift_label_refuted.
-
-Theorem C10_python_generic_alias_refuted :
-  exists cfg pd text, dom_C10 CPY pd = true /\ known_C10 CPY [] pd = ["C10-python-generic-alias"%string] /\
-    py_generate uc_exec cfg pd = Ok text /\ contains_sub (lit "Al[T] = List[T]") text = true.
-Proof. exact Proofs.C10.python_generic_alias_refuted. Qed.
-Print Assumptions C10_python_generic_alias_refuted.
 
 Theorem C10_python_generic_enum_arg_refuted :
   exists cfg pd text, dom_C10 CPY pd = true /\ known_C10 CPY [] pd = ["C10-python-generic-enum-arg"%string] /\
